@@ -66,7 +66,7 @@ type Script struct {
 	// with an unbuffered output reads at most one item from an input between two quiescent
 	// points and producers blocked on a small input buffer keep it full at all times.
 	Strict bool `json:"receive_one_at_a_time,omitempty"`
-	// EpiHold (v2 only): in the epilogue, once the inputs are closed and everything available has
+	// EpiHold: in the epilogue, once the inputs are closed and everything available has
 	// been received, the consumer sits on the in-flight items for this many virtual ns before it
 	// releases the first of them (a slow handler).
 	EpiHold int64 `json:"epilogue_hold_ns,omitempty"`
